@@ -135,7 +135,10 @@ def run_tmp_once(case, ctx, fault_at, sc, run_no):
                             pr.start()
                             procs.append(pr)
                         for pr in procs:
-                            pr.join(30)
+                            pr.join(60)
+                            if pr.exitcode is None:
+                                from ..common import Inconclusive
+                                raise Inconclusive("a child process did not finish within 60 s")   # a harness limit is never a verdict
                             if pr.exitcode != 0:
                                 fail("child/failed", "child exit code %r" % pr.exitcode)
                         expected = sum(case["children"])
